@@ -245,7 +245,7 @@ def main():
     print("MANIFEST.json: %d checks, %d not_applicable" % (len(checks), len(na)))
 
 
-SOURCE_COMMITS = ["c203823", "0fd70cf", "8261140", "84533cc", "edeae19", "d657645", "566cb9d", "703cc68", "c388d81", "c08711b", "759d47b", "5c1e00f", "eb5eb1e", "0401e81", "a654d56", "6590ce1", "22c1aeb", "5bf918c", "695412e"]
+SOURCE_COMMITS = ["c203823", "0fd70cf", "8261140", "84533cc", "edeae19", "d657645", "566cb9d", "703cc68", "c388d81", "c08711b", "759d47b", "5c1e00f", "eb5eb1e", "0401e81", "a654d56", "6590ce1", "22c1aeb", "5bf918c", "695412e", "4156808", "749293a", "b710a26"]
 
 if __name__ == "__main__":
     main()
